@@ -21,7 +21,7 @@ class C18(BaseCheck):
   REQUIRED_CLASSES = ('counter', 'gauge', 'percentile:below-reservoir', 'percentile:above-reservoir',
                       'full-stack', 'percentile:busy-after-full', 'zero-increment', 'fractional-increment',
                       'overlapping-measure', 'gauge:persistent-objects', 'percentile:second-aggregation',
-                      'sibling-class-same-short-name', 'source-subclass', 'client-id:equal-not-identical', 'percentile:idle-siblings', 'percentile:aggregation-spans-clock-ticks', 'objects-bound-before-reset')
+                      'sibling-class-same-short-name', 'source-subclass', 'client-id:equal-not-identical', 'percentile:idle-siblings', 'percentile:aggregation-spans-clock-ticks', 'objects-bound-before-reset', 'percentile:idle-service-listed-after-a-live-one')
   ASSUMPTIONS = ('percentile bounds allow 1e-9 relative slack for the linear interpolation',)
   QUICK_CASES = 720
   THOROUGH_CASES = 40000
@@ -236,6 +236,20 @@ class C18(BaseCheck):
     pt = ('pm', 'psvc%d' % idx, 'ph:1', None)
     the_src = Source(*pt)
     metric = 'verif.c18.' + rng.choice(['lat', 'sz'])
+    quiet_pt = None
+    if idx % 6 == 4:
+      # two more services use the same metric: one keeps recording, the other (listed after it in the
+      # receiver's table) recorded a few samples and has been idle for more than five minutes since
+      classes.add('percentile:idle-service-listed-after-a-live-one')
+      live_src = Source('pm', 'plive%d' % idx, 'ph:1', None)
+      quiet_pt = ('pm', 'pquiet%d' % idx, 'ph:1', None)
+      VarzReceiver.RecordPercentileSample(live_src, metric, 100.0 + rng.random() * 100)
+      quiet_samples = [1.0 + rng.random() * 4 for _ in range(rng.randint(1, 5))]
+      for v_ in quiet_samples:
+        VarzReceiver.RecordPercentileSample(Source(*quiet_pt), metric, v_)
+      for _m in range(6):
+        env.advance(60.0)
+        VarzReceiver.RecordPercentileSample(live_src, metric, 100.0 + rng.random() * 100)
     if size <= 10 and idx % 2 == 1:
       # other endpoints of the same service recorded samples long ago and have been idle for more than
       # five minutes since: only the live source's samples may shape what is reported for the service
@@ -289,6 +303,15 @@ class C18(BaseCheck):
                       {'stream': stream_cls, 'round': round_})
         if len(data) > 1000:
           out.violate('percentile:reservoir', 'reservoir holds %d samples' % len(data), {})
+      if quiet_pt is not None:
+        # the idle single-source service: nothing recent to report (all zeros), or else figures from its own samples
+        out.obligations += 1
+        tot_q = agg.get(metric, {}).get((quiet_pt[1], quiet_pt[3]))
+        if tot_q is not None and any(tot_q.total) and any(
+            p < min(quiet_samples) - 1e-9 or p > max(quiet_samples) + 1e-9 for p in tot_q.total[1:]):
+          out.violate('percentile:out-of-range', 'the idle service of metric %s reports percentiles %r, its only source retains samples in '
+                      '[%r, %r]' % (metric, tot_q.total[1:], min(quiet_samples), max(quiet_samples)),
+                      {'stream': 'idle-service', 'round': round_})
     aggregate_and_judge(1)
     if rng.random() < 0.5:
       # the same live series is aggregated again after more samples were recorded within the
